@@ -389,6 +389,17 @@ impl<'a> Ref<'a> {
                         break;
                     }
                 }
+                if acc == No && self.mode == Mode::Strict {
+                    // members that are not all object types (e.g. (A | null) & (B | null)): the declared keys are
+                    // still the union over the members, which a member-by-member strict reading cannot see.
+                    // Definite only when the open reading already rejects.
+                    let mut open = Ref::new(self.env, Mode::Open);
+                    open.unspec_as = self.unspec_as;
+                    open.ts_nullish = self.ts_nullish;
+                    if open.member_fuel(d, v, fuel - 1) != No {
+                        return Unspec;
+                    }
+                }
                 acc
             }
             D::Ref(i) => self.member_fuel(self.env.get(*i), v, fuel - 1),
